@@ -343,7 +343,15 @@ class SymInt(object):
         return self
 
     def __abs__(self):
-        return s_ite(self < 0, -self, self)
+        if self.lo is not None and self.lo >= 0:
+            return self
+        if self.hi is not None and self.hi <= 0:
+            return -self
+        r = s_ite(self < 0, -self, self)
+        if isinstance(r, SymInt) and self.lo is not None and self.hi is not None:
+            r.lo = 0
+            r.hi = max(-self.lo, self.hi)
+        return r
 
     def __invert__(self):
         return _arith('-', _arith('-', 0, self), 1)
@@ -490,23 +498,11 @@ class SymInt(object):
         a = abs(self)
         if not isinstance(a, SymInt):
             return a.bit_length()
-        if a.lia:
-            if a.hi is None:
-                raise EngineLeak("bit_length of unbounded LIA int")
-            r = 0
-            for k in range(a.hi.bit_length(), 0, -1):
-                r = s_ite(a >= (1 << (k - 1)), k, r) if k > 0 else r
-            # build from low to high so the highest satisfied threshold wins
-            r = 0
-            for k in range(1, a.hi.bit_length() + 1):
-                r = s_ite(a >= (1 << (k - 1)), k, r)
-            return r
-        n = a.hi.bit_length()
+        if a.hi is None:
+            raise EngineLeak("bit_length of unbounded LIA int")
         r = 0
-        for k in range(1, n + 1):
+        for k in range(1, a.hi.bit_length() + 1):
             r = s_ite(a >= (1 << (k - 1)), k, r)
-        if isinstance(r, SymInt):
-            r.lo = max(r.lo, a.lo.bit_length())
         return r
 
     def to_bytes(self, length, byteorder='big', *, signed=False):
@@ -528,6 +524,34 @@ class SymInt(object):
         if byteorder == 'big':
             items.reverse()
         return vtypes.VBytes(items)
+
+
+class SymIntSub(SymInt):
+    """symbolic instance of an int subclass of the library (e.g. CScriptOp): int behaviour from SymInt,
+    methods looked up on the library class"""
+    __slots__ = ('_cls',)
+
+    def __getattr__(self, name):
+        import types
+        cls = object.__getattribute__(self, '_cls')
+        for k in cls.__mro__:
+            if k is int or k is object:
+                continue
+            if name in k.__dict__:
+                f = k.__dict__[name]
+                if isinstance(f, types.FunctionType):
+                    return types.MethodType(f, self)
+                if isinstance(f, staticmethod):
+                    return f.__func__
+                if isinstance(f, classmethod):
+                    return types.MethodType(f.__func__, cls)
+        raise AttributeError("'%s' object has no attribute '%s'" % (cls.__name__, name))
+
+    @staticmethod
+    def wrap(x, cls):
+        r = SymIntSub(x.e, x.lo, x.hi, x.signed, x.tag)
+        r._cls = cls
+        return r
 
 
 class _FloatOperand(Exception):
@@ -981,13 +1005,26 @@ class Explorer(object):
             return True
         if z3.is_false(cond):
             return False
+        # path-local memo: a condition decided once on this path stays decided (the path condition only grows)
+        neg = False
+        base = cond
+        while z3.is_not(base):
+            base = base.arg(0)
+            neg = not neg
+        key = base.get_id()
+        hit = self.bcache.get(key)
+        if hit is not None:
+            return hit[0] != neg
         self.stats.branches += 1
         i = self.pos
         if i < len(self.prefix):
             d = self.prefix[i]
+            if not isinstance(d, bool):
+                raise EngineLeak("decision prefix misaligned at a branch (non-deterministic harness?)")
             self.pos += 1
             self.solver.add(cond if d else z3.Not(cond))
             self.model = None
+            self.bcache[key] = (d != neg, base)
             return d
         m = self.get_model()
         v = z3.is_true(m.eval(cond, model_completion=True))
@@ -996,31 +1033,57 @@ class Explorer(object):
         if r == z3.sat:
             self.pending.append(self.prefix[:i] + [not v])
             self.solver.add(cond if v else z3.Not(cond))
-        # every non-trivial branch call records one decision so that replay stays aligned
+        # every non-trivial, non-memoised branch call records one decision so that replay stays aligned
         self.prefix.append(v)
         self.pos += 1
+        self.bcache[key] = (v != neg, base)
         return v
 
     def concretize(self, x):
-        """fork over the feasible values of a SymInt (bounded)"""
+        """fork over the feasible values of a SymInt (bounded).  The chosen value is recorded in the decision
+        prefix (it depends on the solver's model), so that re-execution replays exactly the same split."""
         if not isinstance(x, SymInt):
             return x
         self.stats.concretizations += 1
         n = 0
         while True:
+            i = self.pos
+            if i < len(self.prefix):
+                ent = self.prefix[i]
+                if not (isinstance(ent, tuple) and ent[0] == 'v'):
+                    raise EngineLeak("decision prefix misaligned at a concretisation (non-deterministic harness?)")
+                v, taken = ent[1], ent[2]
+                c = self._eqv(x, v)
+                self.pos += 1
+                self.solver.add(c if taken else z3.Not(c))
+                self.model = None
+                if taken:
+                    return v
+                n += 1
+                continue
             m = self.get_model()
             if x.lia:
                 v = m.eval(x.e, model_completion=True).as_long()
-                c = x.e == v
             else:
                 mv = m.eval(x.e, model_completion=True)
                 v = mv.as_signed_long() if x.signed else mv.as_long()
-                c = x.e == mv
-            if self.branch(c):
-                return v
+            c = self._eqv(x, v)
+            self.stats.branches += 1
+            r = self._check(z3.Not(c))
+            if r == z3.sat:
+                self.pending.append(self.prefix[:i] + [('v', v, False)])
+                self.solver.add(c)
+            self.prefix.append(('v', v, True))
+            self.pos += 1
             n += 1
             if n > self.conc_cap:
                 raise Inconclusive("concretisation cap exceeded for %r" % (x,))
+            return v
+
+    def _eqv(self, x, v):
+        if x.lia:
+            return x.e == v
+        return x.e == z3.BitVecVal(v, x.e.size())
 
     def refine_nonneg(self, b):
         if b.lia:
@@ -1107,6 +1170,7 @@ class Explorer(object):
         self.fresh = 0
         self.inputs = {}
         self.path_state = {}
+        self.bcache = {}
         self.stats.paths += 1
         ncex = len(self.cex)
         try:
